@@ -95,7 +95,11 @@ func genValue(t *rapid.T, cs ColSpec, label string) Value {
 	case KRecord:
 		a := uint32(genBits(t, KUint32, label+"-a"))
 		b := rapid.SampledFrom([]string{"", "x", "yz", "rec\x00", strings.Repeat("r", 40)}).Draw(t, label+"-b")
-		return Value{S: recBytes(a, b)}
+		c := uint16(0)
+		if rapid.IntRange(0, 2).Draw(t, label+"-has-c") == 0 {
+			c = uint16(rapid.IntRange(1, 9).Draw(t, label+"-c"))
+		}
+		return Value{S: recBytes3(a, b, c)}
 	}
 	return Value{B: genBits(t, cs.Kind, label)}
 }
